@@ -313,6 +313,7 @@ def _run_stream_init_sync(
                 app._token_key,
                 auth,
                 stream_id,
+                method_name,
                 now=int(minted_at),
             )
             # Warm the cache with the objects we already hold, so this stream's
@@ -321,7 +322,7 @@ def _run_stream_init_sync(
             app._call_state_cache.put(
                 call_id,
                 auth,
-                _ResolvedCall(result.call_state, result.output_schema, result.input_schema, stream_id),
+                _ResolvedCall(result.call_state, result.output_schema, result.input_schema, stream_id, method_name),
                 _call_cache_birth(app, int(minted_at), minted_at),
             )
 
@@ -534,7 +535,7 @@ def _run_stream_exchange_sync(
             resolved_call,
             call_id,
             request_state_bytes,
-        ) = _unpack_and_recover_state(app, token, call_token, state_info, auth)
+        ) = _unpack_and_recover_state(app, token, call_token, state_info, auth, method_name)
         output_schema = resolved_call.output_schema
         input_schema = resolved_call.input_schema
         stream_id = resolved_call.stream_id
@@ -1127,6 +1128,7 @@ def _unpack_and_recover_state(
     call_token: bytes | None,
     state_info: _StateInfo,
     auth: AuthContext | None,
+    method_name: str,
 ) -> tuple[StreamState, _ResolvedCall, bytes, bytes]:
     """Open a cursor token, resolve its call, and rebuild the state object.
 
@@ -1144,6 +1146,13 @@ def _unpack_and_recover_state(
     token is opened and verified, and its embedded ``call_id`` must match
     the one the cursor named.
 
+    Either way the call must have been minted by the ``/init`` of
+    ``method_name``: the call token's AAD carries the method (miss path) and
+    the cache entry records it (hit path).  A stream's tokens presented at
+    another stream method's ``/exchange`` are refused like any other bad
+    token, before the state is decoded, so a method never runs on state its
+    own initialization did not produce.
+
     Args:
         app: The HTTP app providing the AEAD key, TTL, cache, and server
             implementation.
@@ -1155,6 +1164,8 @@ def _unpack_and_recover_state(
             concrete class is resolved from the numeric tag embedded in
             ``state_bytes``.
         auth: Authenticated identity for the current request.
+        method_name: The stream method whose ``/exchange`` endpoint is
+            serving this request.
 
     Returns:
         ``(state_object, resolved_call, call_id, state_bytes)``.
@@ -1176,15 +1187,19 @@ def _unpack_and_recover_state(
     now = time.time()
     resolved = app._call_state_cache.get(call_id, auth, now)
     if resolved is None:
-        resolved, created_at = _resolve_call_from_token(app, call_token, call_id, state_info, auth)
+        resolved, created_at = _resolve_call_from_token(app, call_token, call_id, state_info, auth, method_name)
         app._call_state_cache.put(call_id, auth, resolved, _call_cache_birth(app, created_at, now))
-    elif resolved.call_state is not None:
-        # A hit skips opening the call token, not what the miss path checks
-        # about its contents: the cache must answer exactly as a cold worker
-        # would.
-        call_state_type = type(resolved.call_state).__name__
-        if call_state_type not in _declared_call_state_types(state_info):
-            raise _undeclared_call_state_type(call_state_type)
+    else:
+        # A hit skips opening the call token, not what the miss path checks:
+        # the cache must answer exactly as a cold worker would.  That covers
+        # the method binding the call token's AAD enforces on a miss ...
+        if resolved.method != method_name:
+            raise _token_rejected()
+        # ... and the declared call-state type.
+        if resolved.call_state is not None:
+            call_state_type = type(resolved.call_state).__name__
+            if call_state_type not in _declared_call_state_types(state_info):
+                raise _undeclared_call_state_type(call_state_type)
 
     if resolved.stream_id:
         _current_stream_id.set(resolved.stream_id)
@@ -1248,6 +1263,7 @@ def _resolve_call_from_token(
     expected_call_id: bytes,
     state_info: _StateInfo,
     auth: AuthContext | None,
+    method_name: str,
 ) -> tuple[_ResolvedCall, int]:
     """Open a client-supplied call token — the cache-miss path.
 
@@ -1258,6 +1274,8 @@ def _resolve_call_from_token(
         state_info: The method's state class (or union tuple), which
             declares the call-state type to deserialize into.
         auth: Authenticated identity for the current request.
+        method_name: The stream method serving the request; the call token
+            opens only under the AAD of the method that minted it.
 
     Returns:
         The parsed :class:`_ResolvedCall` and the token's ``created_at``.
@@ -1282,7 +1300,7 @@ def _resolve_call_from_token(
         token_call_id,
         stream_id,
         created_at,
-    ) = _open_call_token_dated(call_token, app._token_key, _compute_call_aad(auth), app._token_ttl)
+    ) = _open_call_token_dated(call_token, app._token_key, _compute_call_aad(auth, method_name), app._token_ttl)
     # Constant-time compare: the ids are both server-minted and already
     # authenticated, so this is belt-and-braces against a client pairing two
     # of its own tokens from different streams.
@@ -1320,4 +1338,4 @@ def _resolve_call_from_token(
                 status_code=HTTPStatus.BAD_REQUEST,
             ) from exc
 
-    return _ResolvedCall(call_state, output_schema, input_schema, stream_id), created_at
+    return _ResolvedCall(call_state, output_schema, input_schema, stream_id, method_name), created_at
